@@ -439,6 +439,40 @@ Definition call (cfg : config) (lookup : N -> option session) (now : N) (d : dea
       end
   end.
 
+
+(** The dealer as an ABORTED CALL leaves it ([call] = [CallAbort _]): when the
+    protocol violation is found after a callee was selected (payload passthru
+    without the feature), the round-robin cursor of the registration has already
+    moved; the earlier violation (progressive call invocation without the
+    feature) is found before any selection.  Used by [Realm.handle] only in
+    the [CallAbort] branch. *)
+Definition call_abort_dealer (lookup : N -> option session) (d : dealer) (caller : session) (req : N)
+           (opts : dict) (proc : string) (oracle : N) : dealer :=
+  match match_procedure d proc oracle with
+  | None => d
+  | Some r =>
+      match reg_callees r with
+      | [] => d
+      | _ =>
+          if opt_bool opts "progress" && negb (sess_feature caller "caller" f_prog_inv) then d
+          else match cget (d_bycall d) (s_id caller, req) with
+               | Some _ => d
+               | None =>
+                   match select_callee r oracle with
+                   | None => d
+                   | Some (callee_id, next) =>
+                       match lookup callee_id with
+                       | None => d
+                       | Some _ =>
+                           d_set_regs d (nset (d_regs d) (reg_id r)
+                             (mkReg (reg_id r) (reg_proc r) (reg_match r) (reg_policy r) (reg_disclose r)
+                                    (reg_fwd_timeout r) next (reg_callees r)))
+                       end
+                   end
+               end
+      end
+  end.
+
 (** ** syncRemoveSession *)
 Definition remove_callee_reg (sid : N) (acc : dealer * list metapub) (regid : N) : dealer * list metapub :=
   let '(d, mp) := acc in
